@@ -4,6 +4,7 @@ import Dhlldv.Spec.Select
 import Dhlldv.Spec.Graded
 import Dhlldv.Spec.SlurryObj
 import Dhlldv.Spec.Memo
+import Dhlldv.Spec.Pipeline
 import Dhlldv.Gen.Effects
 
 /-! Line-protocol dispatcher over the hand-written Spec models. -/
@@ -16,6 +17,19 @@ def extractedSlurryCfg : Spec.Slurry.Cfg where
   readsCurves := Effects.slurryReadsCurves
   gsdRaisesCurves := Effects.gsd_raises_curves
   curvesChecksGsd := Effects.curves_checks_gsd
+
+/-- parse `n` sections: `P D L K dz im il` | `U hL hM`; returns the sections and the unread tokens -/
+def parseSecsRest : List String → Nat → List (Spec.Pipe.Sec Float) → Option (List (Spec.Pipe.Sec Float) × List String)
+  | rest, 0, acc => some (acc.reverse, rest)
+  | "P" :: d :: l :: k :: dz :: im :: il :: rest, n + 1, acc =>
+    parseSecsRest rest n (Spec.Pipe.Sec.pipe (Gen.fOfBits d) (Gen.fOfBits l) (Gen.fOfBits k) (Gen.fOfBits dz) (Gen.fOfBits im) (Gen.fOfBits il) :: acc)
+  | "U" :: hl :: hm :: rest, n + 1, acc => parseSecsRest rest n (Spec.Pipe.Sec.pump (Gen.fOfBits hl) (Gen.fOfBits hm) :: acc)
+  | _, _, _ => none
+
+def parseSecs (ts : List String) (n : Nat) (acc : List (Spec.Pipe.Sec Float)) : Option (List (Spec.Pipe.Sec Float)) :=
+  match parseSecsRest ts n acc with
+  | some (s, []) => some s
+  | _ => none
 
 def dispatch (op : String) (a : Array String) : Option String :=
   match op with
@@ -92,6 +106,27 @@ def dispatch (op : String) (a : Array String) : Option String :=
         | ["x"] => goM (Spec.Memo.step f s .clear).1 rest acc
         | _ => none
     (goM { sw := 3, memo := [] } (a.toList.drop 2) []).map (" ".intercalate ·)
+  | "spec.syshead" =>
+    -- spec.syshead g rhom rhol Q <n> then per section: P D L K dz im il | U hL hM
+    if a.size < 5 then none else
+    match parseSecs (a.toList.drop 5) (a[4]!).toNat! [] with
+    | none => none
+    | some secs =>
+      let f := fun i => Gen.fOfBits a[i]!
+      let (hm, hl, pl, pm) := Spec.Pipe.sysHead (α := Float) (f 0) (f 1) (f 2) (f 3) secs
+      some (" ".intercalate ([hm, hl, pl, pm].map Gen.bitsOf))
+  | "spec.gradeline" =>
+    -- spec.gradeline rhol <n> sections… then n heads (pump − system head of the prefix of length 1 … n)
+    if a.size < 2 then none else
+    let n := (a[1]!).toNat!
+    match parseSecsRest (a.toList.drop 2) n [] with
+    | none => none
+    | some (secs, rest) =>
+      if rest.length != n then none else
+      let heads := rest.map Gen.fOfBits
+      let headOf : List (Spec.Pipe.Sec Float) → Float := fun pre => heads.getD (pre.length - 1) (0.0 / 0.0)
+      let (locs, hs, elevs) := Spec.Pipe.gradeLine (α := Float) (Gen.fOfBits a[0]!) headOf secs
+      some (" ".intercalate ((locs ++ hs ++ elevs).map Gen.bitsOf))
   | _ => none
 
 end Spec
